@@ -24,6 +24,13 @@ namespace rkcommon {
       Observable() = default;
       virtual ~Observable();
 
+      // NOTE: observers are registered with one particular object. A copy (e.g.
+      //       of an object that has an Observable as a member) starts without
+      //       observers and an assignment leaves the registrations of both sides
+      //       alone; only the time of the last notification is copied.
+      Observable(const Observable &other);
+      Observable &operator=(const Observable &other);
+
       void notifyObservers();
 
      private:
@@ -46,6 +53,10 @@ namespace rkcommon {
       Observer(Observable &observee);
       ~Observer();
 
+      // NOTE: a copy observes the same observable and registers itself with it
+      Observer(const Observer &other);
+      Observer &operator=(const Observer &other);
+
       bool wasNotified();
 
      private:
@@ -63,6 +74,17 @@ namespace rkcommon {
     {
       for (auto *observer : observers)
         observer->observee = nullptr;
+    }
+
+    inline Observable::Observable(const Observable &other)
+        : lastNotified(other.lastNotified)
+    {
+    }
+
+    inline Observable &Observable::operator=(const Observable &other)
+    {
+      lastNotified = other.lastNotified;
+      return *this;
     }
 
     inline void Observable::notifyObservers()
@@ -92,6 +114,26 @@ namespace rkcommon {
     {
       if (observee)
         observee->removeObserver(*this);
+    }
+
+    inline Observer::Observer(const Observer &other)
+        : lastObserved(other.lastObserved), observee(other.observee)
+    {
+      if (observee)
+        observee->registerObserver(*this);
+    }
+
+    inline Observer &Observer::operator=(const Observer &other)
+    {
+      if (this != &other) {
+        if (observee)
+          observee->removeObserver(*this);
+        lastObserved = other.lastObserved;
+        observee     = other.observee;
+        if (observee)
+          observee->registerObserver(*this);
+      }
+      return *this;
     }
 
     inline bool Observer::wasNotified()
